@@ -101,6 +101,19 @@ def own (kv : KV) : String :=
         | .panicked => ("panicked", [])
         | _ => ("ub", [])
       OwnE.fmt res (OwnE.canonEvs (r.1.filter visible)) out
+    | "clone" =>
+      -- `Clone for GenericArray`: the trait-default `map` on `&self` with `Clone::clone`
+      let r := runFn c Gen.Body.intrusiveDrop.body Gen.Body.gaClone []
+        ⟨⟨xs, 0, 0, 0, []⟩, ⟨[], 0, 0, 0, []⟩, false, 0, false, 0, false, {}⟩
+      let visibleC (e : Ev) : Bool :=
+        match e with
+        | .drop x => !((plA && decide (1 ≤ x) && decide (x ≤ 100)) || (plA && decide (1000 ≤ x)))
+        | _ => true
+      let (res, out) : String × List Nat := match r.2.1 with
+        | .ret (.arr l) => ("ok", l)
+        | .panicked => ("panicked", [])
+        | _ => ("ub", [])
+      OwnE.fmt res (OwnE.canonEvs (r.1.filter visibleC)) out
     | "zip" =>
       -- two owned arrays: `b.inverted_zip(a, f)` with `a` the receiver of `zip`
       if kv.getD "form" "o" ≠ "o" || kv.getD "form2" "o" ≠ "o" then "n/a" else
